@@ -216,10 +216,18 @@ pub fn run(tier: Tier, seed: u64) -> i32 {
                         digits.extend(printed_or_empty(&card, y as usize * w as usize + x as usize));
                     }
                     let mut client = MatrixCardVerifier::new(count, h, sd, w, key);
-                    for &dg in &digits {
+                    // the verifier is copied half-way through the entry (a UI keeps one per dialog and clones it on redraw)
+                    // and the card is a copy of the stored one: neither may change what is computed
+                    let half = digits.len() / 2;
+                    for &dg in &digits[..half] {
+                        client.enter_value(dg);
+                    }
+                    let mut client = client.clone();
+                    for &dg in &digits[half..] {
                         client.enter_value(dg);
                     }
                     let proof = client.into_proof();
+                    let card = card.clone();
                     proof_cases.fetch_add(1, Ordering::Relaxed);
                     let want = matrix_proof(sd, key, &digits);
                     if proof != want {
